@@ -83,6 +83,11 @@ func (e *Engine) isRepoFunc(fn *ssa.Function) bool {
 }
 
 func (e *Engine) noEffect(name string) bool {
+	for _, p := range e.specs.HasEffect {
+		if p == name {
+			return false
+		}
+	}
 	for _, p := range e.specs.NoEffect {
 		if ok, _ := path.Match(p, name); ok {
 			return true
@@ -200,6 +205,16 @@ func (e *Engine) callFunction(fr *Frame, st *State, fn *ssa.Function, binds []*V
 		}
 		k(st, v)
 		return
+	}
+	if name == "fmt.Errorf" && len(args) > 0 {
+		// fmt.Errorf wraps an operand when its format has a %w verb: the result then inherits properties of that operand
+		// (errors.Is / errors.As see through it).  A constant format without %w uses the plain contract, anything else the
+		// contract variant "fmt.Errorf%w", which makes no claim about what the error is not.
+		if f, ok := e.reg.litText(args[0].T); !ok || strings.Contains(f, "%w") {
+			if alt := e.lookup("fmt.Errorf%w"); alt != nil {
+				name = "fmt.Errorf%w"
+			}
+		}
 	}
 	if ct := e.lookup(name); ct != nil && ct.Opts["inline"] == "" { // also for a recursive call of the function under verification: its contract is the induction hypothesis
 		k2 := k
@@ -351,7 +366,28 @@ func (e *Engine) applyContractFr(fr *Frame, st *State, ct *Contract, fn *ssa.Fun
 			e.errorf("%s: evaluating requires of %s: %v", fr.fn, ct.Key, err)
 			return
 		}
-		po := e.addObligation(st, fr, "callee-precondition", append([]string{"pre"}, rq.Tags...), ct.Key+": requires "+rq.Src, e.posStr(pos), v.T, e.topProbes(st))
+		goal := v.T
+		// a known finding on panic-freedom of the function under verification also covers the preconditions of library
+		// functions that are documented to panic (they are the same class of obligation: "this call cannot panic")
+		if ct.Assumed && fr.depth == 0 && fr.fn == e.curFn {
+			for _, kf := range e.known {
+				if kf.Obligation != "safety" || !strings.HasSuffix(fr.fn.String(), kf.Function) {
+					continue
+				}
+				rx, err := parseExpr(kf.Region)
+				if err != nil {
+					continue
+				}
+				rv, err := e.loopCtx(fr, st, nil, false).evalAs(rx, sBool)
+				if err != nil {
+					e.errorf("known finding safety region: %v", err)
+					continue
+				}
+				e.addObligation(st, fr, "known-inside", []string{"safety"}, ct.Key+": requires "+rq.Src, kf.Region, "(=> "+rv.T+" "+v.T+")", nil)
+				goal = or(rv.T, goal)
+			}
+		}
+		po := e.addObligation(st, fr, "callee-precondition", append([]string{"pre"}, rq.Tags...), ct.Key+": requires "+rq.Src, e.posStr(pos), goal, e.topProbes(st))
 		po.Prefer = e.topPrefers(st)
 		st.assume(v.T)
 	}
@@ -500,6 +536,18 @@ func (e *Engine) resolveMods(ctx *EvalCtx, mods []string) (*modTargets, error) {
 		}
 		if m == "heap" {
 			mt.all = true
+			continue
+		}
+		if m == "globals" {
+			// every package-level variable (but no object on the heap): what an initialiser run through sync.Once may assign
+			var gk []string
+			for k := range e.hsorts {
+				if strings.HasPrefix(k, "G|") && !e.isSentinelKey(k) {
+					gk = append(gk, k)
+				}
+			}
+			sort.Strings(gk)
+			mt.keys = append(mt.keys, gk...)
 			continue
 		}
 		if strings.HasPrefix(m, "key:") {
